@@ -46,6 +46,7 @@ func checkC02(c *Ctx) {
 		c02Sink(c, p, m)
 		c02Newline(c, p, m)
 		c02NoFailure(c, p, m, tags)
+		searchIndexStepBack(c, p, m)
 		c02Pool(c, p, m)
 		c03Routing(c, p, m)
 		c01Gates(c, p, m, tags)
@@ -387,6 +388,12 @@ func printTree(p *Prog, m *Model) map[*ssa.Function]bool {
 	var roots []*ssa.Function
 	for fn := range m.Spine {
 		roots = append(roots, fn)
+	}
+	// the bridges enter through an interface call of the standard library
+	for _, spec := range []string{"handler4LogSlog.Handle", "handlerWriter.Write"} {
+		if fn := p.F(spec); fn != nil {
+			roots = append(roots, fn)
+		}
 	}
 	for _, tn := range []string{"kvp", "gkvp", "Attrs"} {
 		for _, mn := range []string{"SerializeValueTo", "Key", "Value"} {
